@@ -123,7 +123,7 @@ def generate(chk):
     import os
     h = hashlib.sha256()
     for f in sorted(os.listdir(vf.SPEC)):
-        if f.startswith("ClientStream"):
+        if f.startswith("ClientStream") and "Trace" not in f:
             h.update(open(os.path.join(vf.SPEC, f), "rb").read())
     h.update(open(__file__, "rb").read())
     h.update(f"{chk.tier}:{chk.seed}".encode())
@@ -155,9 +155,21 @@ def generate(chk):
                               keep_prefixes=True, steps_key=None, heap="8g", timeout=3600, line_filter=first_per_prefix)
         st["transitions_emitted"] = stat["lines"]
         chosen, sel = select(tour, 5000 if quick else 60000, chk.seed, coarse=quick)
+        # let time pass (longer than the keep-alive interval) at the end of a few behaviours that
+        # stop before encryption and before any session, TLS being required: nothing may be written
+        nstall = 25 if quick else 250
         behs = []
+        stalled = 0
         for b in chosen:
-            behs.append({"cfg": b["cfg"], "steps": b["steps"] + epilogue(b["cfg"], b["key"]["endSock"])})
+            steps = list(b["steps"])
+            kk = b["key"]
+            if (stalled < nstall and kk["tls"] == "Required" and not kk["enc"] and kk["endSock"] == "On"
+                    and not kk["session"] and not kk["sig"] and steps[-1]["k"] in ("Hdr", "Features", "Whitespace", "IqOther", "Partial")
+                    and kk["lst2"] in ("Core", "Starttls")):
+                steps.append({"k": "Stall"})
+                stalled += 1
+            behs.append({"cfg": b["cfg"], "steps": steps + epilogue(b["cfg"], kk["endSock"])})
+        sel["stalled_behaviours"] = stalled
         gen = {"tour": st, "selection": sel, "from_cache": False}
         json.dump({"behs": behs, "gen": gen}, open(cpath + ".tmp", "w"))
         os.replace(cpath + ".tmp", cpath)
